@@ -74,6 +74,10 @@ abstract.register("x", plain)
 
 nocache = dataset.nocache(_f_plain)
 
+def late_impl(a=Option("A", 0)):
+    return ("late2", a)
+
+
 EXPLICIT = ["plain", "dep", "with_callback", "with_effects", "preset", "defaults", "derivative", "disp", "abstract", "nocache"]
 
 
